@@ -16,7 +16,11 @@ UnJack(j) == LET n == Len(j) - 1  s == RSumSeq(SubSeq(j, 2, n + 1)) IN
 \* jackknife variance (n-1)/n sum (jack_i - mean_jack)^2
 JackVar(j) == LET n == Len(j) - 1  body == SubSeq(j, 2, n + 1)  m == RDiv(RSumSeq(body), RFromInt(n)) IN
               RMul(RDiv(RFromInt(n - 1), RFromInt(n)), RSumSeq([i \in 1..n |-> RSq(RSub(body[i], m))]))
-NaiveVar(o) == AnalyseEns(o.chains, "0", "0", "1").dvalue2
+\* naive squared error of the mean, sum d^2 / (n (n-1)).  For a chain on its own grid this is the S = 0 result of the
+\* Gamma method (checked in MC_Resample as NaiveIsGammaS0); stated directly here because an irregular list need not lie
+\* on the grid of its smallest spacing, and the jackknife does not care where the configurations sit.
+NaiveVar(o) == LET d == o.chains[1].d  n == Len(d) IN RDiv(RSumSeq([i \in DOMAIN d |-> RSq(d[i])]), RFromInt(n * (n - 1)))
+NaiveIsGammaS0(o) == AllOnGrid(o.chains) => NaiveVar(o) = AnalyseEns(o.chains, "0", "0", "1").dvalue2
 
 \* bootstrap: table[k] = sequence of n indices in 0..n-1; sample k = mean of x over the resampled configurations
 Counts(row, n) == [j \in 1..n |-> Cardinality({p \in DOMAIN row : row[p] = j - 1})]
